@@ -849,9 +849,9 @@ func main() {
 			if run.Quick() {
 				return bounds{2, 2, 1}
 			}
-			return bounds{4, 4, 3}
+			return bounds{4, 4, 2}
 		default:
-			return bounds{3, 2, 1}
+			return bounds{2, 2, 1}
 		}
 	}
 	if run.Seed != 0 { // the seed may only permute order
